@@ -15,6 +15,9 @@ pub fn world_from_desc(desc: &Value) -> World {
     let max_dev = desc["max_dev"].as_u64().unwrap_or(2) as usize;
     let ncfg = desc["cfgs"].as_u64().unwrap_or(16) as u32;
     let cfgs: Vec<Cfg> = cfg_list(ncfg);
+    if desc["kind"].as_str() == Some("host-focus") {
+        return World::new(crate::universe::host_focus_universe(), cfgs, max_dev, desc.clone());
+    }
     World::new(star_and_pairs_universe(pairs), cfgs, max_dev, desc.clone())
 }
 
@@ -64,8 +67,15 @@ pub fn run_insert_only(prop: &'static str, checks: Checks, tier: Tier) -> i32 {
         (Tier::Quick, true) => vec![(1, 2, 1, 2), (1, 2, 2, 1)],
         (Tier::Thorough, true) => vec![(2, 16, 1, 2), (1, 16, 2, 1), (1, 4, 2, 2)],
     };
+    // pairs level 9 = the host-focus universe (all insertion orders of its small subsets)
+    let mut plans = plans;
+    plans.push((9, tier.pick(2, 4), tier.pick(4, 5), 1));
     for (pairs, ncfg, depth, max_dev) in plans {
-        let desc = json!({"kind": "star-and-pairs", "pairs": pairs, "max_dev": max_dev, "cfgs": ncfg});
+        let desc = if pairs == 9 {
+            json!({"kind": "host-focus", "pairs": 0, "max_dev": max_dev, "cfgs": ncfg})
+        } else {
+            json!({"kind": "star-and-pairs", "pairs": pairs, "max_dev": max_dev, "cfgs": ncfg})
+        };
         let world = world_from_desc(&desc);
         let mut model = Model::new(&ctx, &world, checks);
         model.ops_insert_only = true;
